@@ -1255,8 +1255,8 @@ void new_interactive (socket_fd_t socket_fd) {
       all_users = RESIZE (all_users, max_users + 50, interactive_t *, TAG_USERS, "new_user_handler");
     }
     else {
-      /* first time allocation */
-      all_users = CALLOCATE (50, interactive_t *, TAG_USERS, "new_user_handler");
+      /* first time allocation (slot #0 is reserved, so a network user starts at i == 1) */
+      all_users = CALLOCATE (i + 50, interactive_t *, TAG_USERS, "new_user_handler");
     }
     while (max_users < i + 50)
       all_users[max_users++] = 0;
